@@ -240,8 +240,16 @@ def run_pairs(sh, lab, found):
                         getattr(io1.output, name)("FIRST", fl)
                         getattr(io2.output, name)("SECOND", fl)
                         getattr(io1.error_output, name)("THIRD", fl)
-                        # a section created from a gated output starts with its own (default) settings
+                        # a section created before the output was gated keeps the settings it was created with
                         getattr(sec, name)("SECTION", fl)
+                        # one created afterwards: whatever settings it reports are the ones that gate it
+                        late = io1.output.section()
+                        late_open = (not late.is_quiet()) and late.verbosity >= lowest(fl)
+                        before_late = len(so1.fetch())
+                        getattr(late, name)("LATE", fl)
+                        if ("LATE" in so1.fetch()[before_late:]) != late_open:
+                            sh.violate("gate", case, "a section created from the gated output reports verbosity %r quiet=%r but %s the message" % (
+                                late.verbosity, late.is_quiet(), "wrote" if "LATE" in so1.fetch()[before_late:] else "suppressed"))
                     except Exception as e:
                         sh.violate("cell-raises", case, "raised %r" % (e,))
                         continue
